@@ -61,6 +61,8 @@ def replay(ctx, path, cmd="auth-replay", sig_prefix="replay:auth", describe=None
         case = cases[r["idx"]]
         kind = classify(r["problems"][0])
         extra = describe(case, r) if describe else ""
+        if kind == "other":
+            kind = r["problems"][0].split(":")[0].replace(" ", "-")[:40]
         ctx.finding("%s:%s%s" % (sig_prefix, kind, extra), "; ".join(r["problems"][:2])[:400],
                     {"kind": cmd, "case": case, "row": r})
     n = len(rows)
